@@ -434,6 +434,8 @@ func evalOp(t *Term, arg func(int) uint64) (uint64, bool) {
 		return fb(math.Round(f(0))), true
 	case "fp.sqrt":
 		return fb(math.Sqrt(f(0))), true
+	case "fp.round32":
+		return fb(float64(float32(f(0)))), true
 	case "fp.isNaN":
 		return b2u(math.IsNaN(f(0))), true
 	case "fp.isInfinite":
@@ -578,6 +580,9 @@ func opSMT(t *Term, a []string) string {
 		return fmt.Sprintf("(fp.roundToIntegral RNA %s)", j)
 	case "fp.sqrt":
 		return fmt.Sprintf("(fp.sqrt RNE %s)", j)
+	case "fp.round32":
+		// a float32 value is carried as the float64 it converts to exactly
+		return fmt.Sprintf("((_ to_fp 11 53) RNE ((_ to_fp 8 24) RNE %s))", j)
 	case "to_fp_s":
 		return fmt.Sprintf("((_ to_fp 11 53) RNE %s)", j)
 	case "to_fp_u":
